@@ -213,7 +213,7 @@ extern "C" int simkit_fault_cb(const char* site)
   if (g_faults.traceOn) g_faults.trace.emplace_back(s, occ);
   if (!g_faults.enabledSites.empty() && !g_faults.enabledSites.count(s)) return 0;
   for (auto& f : g_faults.armed)
-    if (f.site == s && f.occ == occ)
+    if (f.site == s && (f.occ == occ || f.occ < 0))
     {
       g_faults.fired++;
       g_faults.lastFired = s;
@@ -355,6 +355,7 @@ static void parseSanitizer(ChildOutcome& co)
       else k += c;
     }
     if (k.size() > 60) k.resize(60);
+    if (msg.find("null pointer") != std::string::npos) k = "null-pointer-use";
     co.sanKind = "ubsan:" + k;
   }
   else if (t.find("AddressSanitizer") != std::string::npos || t.find("Sanitizer") != std::string::npos)
@@ -412,7 +413,7 @@ ChildOutcome runChild(const std::function<void(Ctx&)>& fn, int timeoutSec)
     g_eventFd = pe[1];
     // a runaway child must not take the machine down
     struct rlimit rl;
-    rl.rlim_cur = rl.rlim_max = (rlim_t)(timeoutSec + 30);
+    rl.rlim_cur = rl.rlim_max = (rlim_t)(20 * timeoutSec + 60);
     setrlimit(RLIMIT_CPU, &rl);
     try
     {
@@ -459,6 +460,7 @@ ChildOutcome runChild(const std::function<void(Ctx&)>& fn, int timeoutSec)
         {
           std::string& b = (k == 0 ? ebuf : sbuf);
           if (b.size() < (64u << 20)) b.append(buf, (size_t)n);
+          if (k == 0) gettimeofday(&t0, nullptr); // watchdog measures silence, not total duration
         }
         else if (n == 0 || (n < 0 && errno != EINTR && errno != EAGAIN))
         {
@@ -841,7 +843,7 @@ int simkitMain(int argc, char** argv)
       children += r.children;
       for (auto& c : r.counters) counters[c.first] += c.second;
       if (r.nontrivial) fps.insert(r.fingerprint);
-      if (samples.size() < 2 || (samples.size() < 4 && p.nfaults() > 0 && r.nontrivial)) samples.push_back(p.toText());
+      if ((samples.size() < 3 && p.ops.size() <= 12) || (samples.size() < 4 && p.nfaults() > 0 && r.nontrivial && p.ops.size() <= 12)) samples.push_back(p.toText());
       if (selftest)
       {
         RunResult r2 = w->runPlan(p);
@@ -872,10 +874,16 @@ int simkitMain(int argc, char** argv)
         seen++;
         if (seen > 1) continue; // one minimised witness per signature per worker
         Plan base = p;
-        if (!v.replay.empty()) Plan::parse(v.replay, base);
+        if (!v.replay.empty())
+        {
+          Plan::parse(v.replay, base);
+          // a derived (narrowed) plan must reproduce alone; otherwise the whole plan is the replay file
+          RunResult rb = w->runPlan(base);
+          if (!hasSig(rb, v.sig)) { base = p; counters["gate.derived-plan-not-reproducing"]++; }
+        }
         Plan q = base;
         int used = 0;
-        if (shrunk < 12) { q = shrinkPlan(*w, base, v.sig, 250, &used); shrunk++; }
+        if (shrunk < 12 && v.sig.find("|timeout|") == std::string::npos) { q = shrinkPlan(*w, base, v.sig, 250, &used); shrunk++; }
         std::string f = outdir + "/" + sigFile(v.sig) + ".r" + std::to_string(run) + ".plan";
         writeFile(f, "# sig: " + v.sig + "\n# detail: " + v.detail.substr(0, 1000) + "\n" + q.toText());
         printf("VIOL {\"run\":%ld,\"sig\":\"%s\",\"file\":\"%s\",\"ops\":%zu,\"faults\":%zu,\"shrink_runs\":%d,\"detail\":\"%s\"}\n",
